@@ -77,6 +77,10 @@ func c02Variants() []c02Variant {
 		{Name: "psk-resumed", PSK: true, Hint: true, Resumed: true},
 		{Name: "cert-resumed", Resumed: true},
 		{Name: "psk-cid-mtu40", PSK: true, Hint: true, MTU: 40, CID: true},
+		// connection IDs with whole flights per datagram: a single fault mask position reaches the final
+		// flights (a retransmitted CID-wrapped Finished is cached once more: seed C02d)
+		{Name: "psk-cid", PSK: true, Hint: true, CID: true},
+		{Name: "psk-cid-resumed", PSK: true, Hint: true, CID: true, Resumed: true},
 		{Name: "cert-stores-mtu200", Stores: true, MTU: 200},
 		{Name: "psk-stores", PSK: true, Hint: true, Stores: true},
 	}
